@@ -1,6 +1,6 @@
 (* C12 - non-vacuity examples (tests, not obligations) and small corollaries. *)
 From Coq Require Import ZArith List Bool Lia Arith.
-From C12 Require Import Gen Model ProofsBase ProofsVec ProofsSeq ProofsAL ProofsHM1 ProofsHM2 ProofsHM3 ProofsHM4 ProofsHM5 ProofsHash.
+From C12 Require Import Gen Model ProofsBase ProofsVec ProofsSeq ProofsAL ProofsHM1 ProofsHM2 ProofsHM3 ProofsHM4 ProofsHM5 ProofsHash ProofsSB ProofsDL.
 Import ListNotations.
 
 (* the hypotheses of the refinement theorems are met by the empty containers, and histories crossing
@@ -35,3 +35,15 @@ Example hm_nonvacuous :
       (hm_empty Z Z) = Ok (m, rs) /\
     hm_abs Z Z m = [(192%Z, 4%Z); (256%Z, 6%Z)] /\ nth 9 rs (HUnit Z Z) = HOpt Z Z (Some 6%Z) /\ nth 10 rs (HUnit Z Z) = HOpt Z Z None.
 Proof. split; [apply hm_R_empty|]. eexists; eexists. split; [vm_compute; reflexivity|]. split; [vm_compute; reflexivity|]. split; vm_compute; reflexivity. Qed.
+
+Example sb_nonvacuous :
+  sb_wf sb_empty /\
+  exists b rs, sb_run [BWrite [65%Z; 66%Z]; BWriteByte 67%Z 3; BPwc 20 [1%Z; 2%Z]; BRollback 1; BResize 9; BPrepare 40] sb_empty = Ok (b, rs) /\
+    sb_view b = [65%Z; 66%Z; 67%Z; 67%Z; 67%Z; 1%Z; 0%Z; 0%Z; 0%Z] /\ sb_nul_slot b = Some 0%Z.
+Proof. split; [apply sb_empty_wf|]. eexists; eexists. split; [vm_compute; reflexivity|]. split; vm_compute; reflexivity. Qed.
+
+Example dl_nonvacuous :
+  dl_wf Z (dl_empty Z) [] /\
+  exists d rs, dl_run Z Z.eqb [LPushBack Z 1%Z; LPushFront Z 2%Z; LPushBack Z 3%Z; LInsertBefore Z 1%Z 9%Z; LEraseValue Z 2%Z; LPopBack Z; LFind Z 1%Z] (dl_empty Z) = Ok (d, rs) /\
+    dl_contents Z d = Ok [9%Z; 1%Z].
+Proof. split; [apply (dl_empty_wf Z 0%Z)|]. eexists; eexists. split; vm_compute; reflexivity. Qed.
